@@ -27,6 +27,9 @@ type HandlerFirstConnect struct {
 	handshakePipeTsk    *lib.Task
 	cancelHandshakePipe context.CancelFunc
 	isStratum           atomic.Bool
+	// whether this connection has sent mining.subscribe (mining.authorize is refused before it)
+	//TODO: enforce message order validation
+	minerSubscribeReceived bool
 	// deps
 	proxy *Proxy
 }
@@ -197,7 +200,7 @@ func (p *HandlerFirstConnect) onMiningConfigure(ctx context.Context, msgTyped *m
 }
 
 func (p *HandlerFirstConnect) onMiningSubscribe(ctx context.Context, msgTyped *m.MiningSubscribe) error {
-	minerSubscribeReceived = true
+	p.minerSubscribeReceived = true
 
 	if p.proxy.dest == nil {
 		destConn, err := p.proxy.destFactory(ctx, p.proxy.destURL.Load(), p.proxy.GetSourceWorkerName(), p.proxy.source.conn.conn.RemoteAddr().String())
@@ -242,7 +245,7 @@ func (p *HandlerFirstConnect) onMiningAuthorize(ctx context.Context, msgTyped *m
 	p.proxy.log = p.proxy.log.With("SrcWorker", msgTyped.GetUserName())
 
 	msgID := msgTyped.GetID()
-	if !minerSubscribeReceived {
+	if !p.minerSubscribeReceived {
 		return lib.WrapError(ErrHandshakeSource, fmt.Errorf("MiningAuthorize received before MiningSubscribe"))
 	}
 
